@@ -23,7 +23,7 @@ package rel
 //@ func (String).Count(s)
 //@   tags C10, C01
 //@   pure
-//@   requires validString(s)
+//@   requires[C01,C02] holes: s.holes == cntNeg(row(s.s), s.s.off, s.s.off + len(s.s))
 //@   ensures[C01] result == len(s.s) - cntNeg(row(s.s), s.s.off, s.s.off + len(s.s))
 
 //@ func (String).Has(s; value)
@@ -36,7 +36,7 @@ package rel
 //@   tags C10
 //@   assigns fresh-only
 //@   requires validString(s)
-//@   requires char >= 0
+//@   requires[C01,C02] nonhole: char >= 0
 //@   ensures[C02] valid: validSet(result)
 //@   ensures[C01] den: forall x: Val :: mem(result, x) <==> (memString(s, x) || (char >= 0 && eq(x, mkval(rel.StringCharTuple, at, char))))
 
